@@ -508,7 +508,7 @@ func (c33) Gen(seed int64, tier string, emit0 func(any)) {
 	r := rand.New(rand.NewSource(seed))
 	n := 700
 	if tier == "thorough" {
-		n = 12000
+		n = 5000
 	}
 	for i := 0; i < n; i++ {
 		emit(c33RandCase(r))
